@@ -112,3 +112,34 @@ impl<'a, T: Copy> SeqIter<&'a T> {
 pub fn vonce<T>(x: T) -> (r: SeqIter<T>)
     ensures r@ == seq![x],
 { unimplemented!() }
+impl<T> SeqIter<T> {
+    #[verifier::external_body]
+    pub fn take(self, n: usize) -> (r: SeqIter<T>)
+        ensures r@ == self@.subrange(0, if n as int <= self@.len() { n as int } else { self@.len() as int }),
+    { unimplemented!() }
+    #[verifier::external_body]
+    pub fn skip(self, n: usize) -> (r: SeqIter<T>)
+        ensures r@ == self@.subrange(if n as int <= self@.len() { n as int } else { self@.len() as int }, self@.len() as int),
+    { unimplemented!() }
+}
+// `for x in <SeqIter>` : the loop visits the items of the view in order
+impl<T> Iterator for SeqIter<T> {
+    type Item = T;
+    #[verifier::external_body]
+    fn next(&mut self) -> (r: Option<T>)
+        ensures old(self)@.len() == 0 ==> r is None && final(self)@ == old(self)@,
+            old(self)@.len() > 0 ==> r == Some(old(self)@[0]) && final(self)@ == old(self)@.drop_first(),
+    { unimplemented!() }
+}
+impl<T> vstd::std_specs::iter::IteratorSpecImpl for SeqIter<T> {
+    open spec fn obeys_prophetic_iter_laws(&self) -> bool { true }
+    open spec fn remaining(&self) -> Seq<T> { self@ }
+    open spec fn will_return_none(&self) -> bool { true }
+    open spec fn decrease(&self) -> Option<nat> { Some(self@.len()) }
+    open spec fn peek(&self, i: int) -> Option<T> { if 0 <= i < self@.len() { Some(self@[i]) } else { None } }
+}
+/// R9 / A-fmt: identity on strings produced by `format!` with a literal that contains text
+#[verifier::external_body]
+pub fn vx_nonempty(s: String) -> (r: String)
+    ensures r@ == s@, r@.len() > 0,
+{ s }
